@@ -189,7 +189,8 @@ pub struct EfgStyle {
     pub spell: bool,
     /// with `spell`: some numbers are written with more than 308 digits
     pub long_digits: bool,
-    /// lines end in CR LF, with a blank line and trailing spaces at the end of the file
+    /// lines end in CR LF (nothing is appended: C16 / C17 cut files a few bytes before the end
+    /// and expect the rest to be incomplete)
     pub crlf: bool,
 }
 
@@ -623,7 +624,7 @@ pub fn to_efg(model: &MNode, r: &mut Rng, st: &EfgStyle) -> EfgWritten {
         }
     }
     if st.crlf {
-        w.out = w.out.replace('\n', "\r\n") + "\r\n  \r\n";
+        w.out = w.out.replace('\n', "\r\n");
     }
     EfgWritten { text: w.out, names, constant: st.constant_milli as f64 / 1000.0, slack: w.used_slack as f64 / 1000.0 }
 }
